@@ -16,7 +16,7 @@ ASSUMPTIONS = ['line-level landing points in the work thread of the child; the p
                'expected sequence E = target applied to the items up to the first poison item']
 SHRINK = 'none'
 TIME_BUDGET = {'quick': 170, 'thorough': 1700}
-REQUIRED = {'quick': {'landed_with_items': 150, 'land:_send_result': 10, 'land:_cleanup': 5, 'pipe:supplied': 100, 'mode:kill': 40, 'land:forwarding_thread': 60},
+REQUIRED = {'quick': {'landed_with_items': 150, 'land:_send_result': 10, 'land:_cleanup': 5, 'pipe:supplied': 100, 'mode:kill': 40, 'land:forwarding_thread': 60, 'unpicklable_partial_result': 40},
             'thorough': {'landed_with_items': 1500, 'land:_send_result': 100, 'land:_cleanup': 50}}
 
 
@@ -36,7 +36,11 @@ def strategy(tier):
         'kind': st.just('p_remote'), 'scenario': st.just('persist'), 'items': st.lists(st.sampled_from([1, 2, 3, 4]), min_size=1, max_size=5),
         'close': st.booleans(), 'pipe': st.sampled_from(['default', 'supplied']), 'inject': st.just({'mode': 'none'}),
         'front': st.fixed_dictionaries({'mode': st.just('pause'), 'n_raw': st.integers(0, 900)})})
-    return st.one_of(_child_strategy(), _child_strategy(), _child_strategy(), fwd)
+    unp = st.fixed_dictionaries({
+        'kind': st.just('p_remote'), 'scenario': st.just('persist'),
+        'items': st.builds(lambda a, b: a + ['UNPICKLABLE'] + b, st.lists(st.sampled_from([1, 2]), max_size=2), st.lists(st.sampled_from([3, 4]), max_size=2)),
+        'close': st.booleans(), 'pipe': st.sampled_from(['default', 'supplied']), 'inject': st.just({'mode': 'unpicklable_partial_result'})})
+    return st.one_of(_child_strategy(), _child_strategy(), _child_strategy(), fwd, unp)
 
 
 def _child_strategy():
@@ -87,6 +91,11 @@ def run_case(case, ctx):
             return out
         c['front'] = {'mode': 'pause', 'n': cand[case['front']['n_raw'] % len(cand)]}
         mode = 'front_pause'
+    elif mode == 'unpicklable_partial_result':
+        # a partial result that reaches the parent intact but cannot be rebuilt there: the stream must still end
+        c['inject'] = {'mode': 'terminate_now'}
+        c['settle'] = 0.4
+        out.label('unpicklable_partial_result')
     elif mode == 'none':
         c['close'] = True     # own end: close and wait
     if mode in ('terminate', 'kill'):
@@ -127,7 +136,7 @@ def run_case(case, ctx):
                 out.label('land:' + fn)
         if 'handler' in IC.region_of(reached):
             out.label('land:handler')
-    out.nontrivial = bool(reached and items) or (mode == 'none' and bool(items)) or (mode == 'front_pause' and bool(obs.get('front_reached')))
+    out.nontrivial = mode == 'unpicklable_partial_result' or bool(reached and items) or (mode == 'none' and bool(items)) or (mode == 'front_pause' and bool(obs.get('front_reached')))
     out.key = {'kind': kind, 'items': items, 'close': c.get('close'), 'pipe': case['pipe'], 'mode': mode, 'n': inj.get('n'), 'sig': inj.get('sig')}
     if not obs['dead']:
         out.label('not_dead')
